@@ -391,9 +391,9 @@ def cache_rules(run, db):
         run.finding('C15.cache', fi.qual, norm_stmt(st), 'in-place write into the result of the memoising function %s: later callers receive the edited array (results depend on call history)' % callee.qual, fi.loc(st))
     for q in (CV + 'conv', CV + 'apply_transfer_functions', OT + 'transform_psf', OT + 'mtf_from_psf', OT + 'ptf_from_psf', OT + 'otf_from_psf'):
         fi = db.func(q)
-        muts = [m for m in input_mutations(fi) if m[1] in fi.params]
+        muts = input_mutations(fi)
         for st, name in muts:
-            run.finding('C15.cache', fi.qual, norm_stmt(st), 'in-place write through the argument `%s`: the caller\'s array is modified' % name, fi.loc(st))
+            run.finding('C15.cache', fi.qual, norm_stmt(st), 'in-place write through `%s`, which may be (an entry of) an argument: the caller\'s array is modified' % name, fi.loc(st))
         if not muts:
             run.ok('C15.cache', fi.qual, 'arguments are not written through')
 
